@@ -355,6 +355,15 @@ func (c *Conn) Closed() bool {
 	return c.closed
 }
 
+// PeerBytesRead reports how many bytes the other endpoint has consumed from this connection so far.
+//
+//go:norace
+func (c *Conn) PeerBytesRead() int {
+	c.ns.lock()
+	defer c.ns.unlock()
+	return c.peer.BytesRead
+}
+
 // PeerClosed reports whether the other endpoint has been closed.
 //
 //go:norace
